@@ -10,6 +10,7 @@ git -C /repo apply "$patch" || { echo "patch does not apply"; exit 2; }
 trap 'git -C /repo checkout -- . ; git -C /repo clean -fdq -- tests src; git -C /verif checkout -- evidence' EXIT
 for id in "$@"; do
   out=$(./check "$id" --tier "${TIER:-quick}" 2>&1); code=$?
+  echo "$out" > /tmp/try_last_$id.log
   echo "$id exit=$code $(echo "$out" | grep -c '^VIOLATION') violation line(s); $(echo "$out" | tail -1)"
   rm -rf replays/"$id"
 done
